@@ -103,6 +103,7 @@ Sweep ==
      ELSE IF stopped \/ pend THEN Reject("sweep: iteration continued although the policy was stable")
      ELSE IF budget = 0 THEN Reject("sweep: more iterations than the limit given to solve()")
      ELSE IF Ev.it # iter + 1 THEN Reject("sweep: reported iteration is not the number of iterations performed")
+     ELSE IF ~Ev.f64 THEN Reject("sweep: values are not float64 although double precision is requested (the default)")
      ELSE IF NSteps < 1 \/ NSteps > T.maxeval THEN Reject("evaluation: number of steps outside 1..max_eval_iter")
      ELSE IF \E j \in 1..NSteps : ~StepIsPolicyBackup(j)
        THEN Reject("evaluation: a step is not the one-step expected value under each state's own policy action")
